@@ -398,16 +398,20 @@ func Supervise(p *Prop, o Options) int {
 	}
 	var violLines []map[string]any
 	for i, v := range real {
-		if i >= 25 {
-			fmt.Printf("… %d further violation classes not printed\n", len(real)-25)
+		if i == 25 {
+			fmt.Printf("… %d further violation classes not printed (all are in the evidence file, with replay files)\n", len(real)-25)
+		}
+		if i >= 300 {
 			break
 		}
 		h := sha256.Sum256([]byte(v.Sig))
 		path := filepath.Join(repDir, fmt.Sprintf("%s-%s.json", p.ID, hex.EncodeToString(h[:6])))
 		rb, _ := json.MarshalIndent(map[string]any{"property": p.ID, "sig": v.Sig, "msg": v.Msg, "count": v.Count, "seed": o.Seed, "tier": o.Tier, "case": v.Case}, "", " ")
 		os.WriteFile(path, rb, 0o644)
-		fmt.Printf("VIOLATION property=%s replay=%s\n", p.ID, path)
-		fmt.Printf("   sig=%s (x%d)\n   %s\n", v.Sig, v.Count, Trunc(v.Msg, 600))
+		if i < 25 {
+			fmt.Printf("VIOLATION property=%s replay=%s\n", p.ID, path)
+			fmt.Printf("   sig=%s (x%d)\n   %s\n", v.Sig, v.Count, Trunc(v.Msg, 600))
+		}
 		violLines = append(violLines, map[string]any{"sig": v.Sig, "msg": Trunc(v.Msg, 300), "count": v.Count, "replay": path})
 	}
 	for i, w := range inconclusive {
